@@ -131,6 +131,17 @@ Section MethodGoal.
   Definition fold_goal (f : V -> E) (M : vreg E -> E) : Prop :=
     forall x, okreg x -> f (enc x) = M x.
 
+  (* generated definitions that MAY PANIC (option-valued, Model/RustLoops.v): against a TOTAL model method the statement
+     is "never panics on well-formed registers, and returns the model's value"; against the model's partial [r_div] /
+     [r_div_dense] it is equality of the option values: it panics exactly when the model says so *)
+  Definition ddec (d : DenseLane V) : dense E := map dec (dl d).
+  Definition obin_goal (f : V -> V -> option V) (M : vreg E -> vreg E -> option (vreg E)) : Prop :=
+    forall x y, okreg x -> okreg y -> option_map dec (f (enc x) (enc y)) = M x y.
+  Definition odbin_goal (f : DenseLane V -> DenseLane V -> option (DenseLane V))
+             (M : dense E -> dense E -> option (dense E)) : Prop :=
+    forall X Y, dall okreg X -> dall okreg Y -> option_map ddec (f (dmap enc X) (dmap enc Y)) = M (dl X) (dl Y).
+  Definition tot2 {A B C} (M : A -> B -> C) : A -> B -> option C := fun a b => Some (M a b).
+
   Definition method_goal (m : rmeth) (d : gen_def V E) : Prop :=
     match m, d with
     | MElementsPerLane, D_n n => n = Z.of_nat (lanes R)
@@ -164,6 +175,29 @@ Section MethodGoal.
     | MSumToRegister, D_dv f => roll_goal f (sum_to_register R)
     | MMaxToRegister, D_dv f => roll_goal f (max_to_register R)
     | MMinToRegister, D_dv f => roll_goal f (min_to_register R)
+    (* option-valued generated definitions *)
+    | MDiv, O_vvv f => obin_goal f (r_div R)
+    | MDivDense, O_ddd f => odbin_goal f (r_div_dense R)
+    | MAdd, O_vvv f => obin_goal f (tot2 (r_add R))
+    | MSub, O_vvv f => obin_goal f (tot2 (r_sub R))
+    | MMul, O_vvv f => obin_goal f (tot2 (r_mul R))
+    | MMax, O_vvv f => obin_goal f (tot2 (r_max R))
+    | MMin, O_vvv f => obin_goal f (tot2 (r_min R))
+    | MFmadd, O_vvvv f =>
+        forall x y z, okreg x -> okreg y -> okreg z ->
+                      option_map dec (f (enc x) (enc y) (enc z)) = Some (r_fmadd R x y z)
+    | MAddDense, O_ddd f => odbin_goal f (tot2 (r_add_dense R))
+    | MSubDense, O_ddd f => odbin_goal f (tot2 (r_sub_dense R))
+    | MMulDense, O_ddd f => odbin_goal f (tot2 (r_mul_dense R))
+    | MMaxDense, O_ddd f => odbin_goal f (tot2 (r_max_dense R))
+    | MMinDense, O_ddd f => odbin_goal f (tot2 (r_min_dense R))
+    | MFmaddDense, O_dddd f =>
+        forall X Y Z, dall okreg X -> dall okreg Y -> dall okreg Z ->
+                      option_map ddec (f (dmap enc X) (dmap enc Y) (dmap enc Z))
+                      = Some (r_fmadd_dense R (dl X) (dl Y) (dl Z))
+    | MSumToRegister, O_dv f => forall X, dall okreg X -> option_map dec (f (dmap enc X)) = Some (sum_to_register R (dl X))
+    | MMaxToRegister, O_dv f => forall X, dall okreg X -> option_map dec (f (dmap enc X)) = Some (max_to_register R (dl X))
+    | MMinToRegister, O_dv f => forall X, dall okreg X -> option_map dec (f (dmap enc X)) = Some (min_to_register R (dl X))
     | _, _ => False        (* load / write (raw pointers) are never translated; a shape mismatch proves nothing *)
     end.
 End MethodGoal.
@@ -197,6 +231,7 @@ Definition fb_inst (d : fb_def) (T : Type) (Mt : MathOps T) : gen_def T T :=
   | FB_n f => D_n (f T Mt) | FB_v f => D_v (f T Mt) | FB_sv f => D_sv (f T Mt) | FB_vvv f => D_vvv (f T Mt)
   | FB_vvvv f => D_vvvv (f T Mt) | FB_vs f => D_vs (f T Mt) | FB_d f => D_d (f T Mt) | FB_sd f => D_sd (f T Mt)
   | FB_ddd f => D_ddd (f T Mt) | FB_dddd f => D_dddd (f T Mt) | FB_dv f => D_dv (f T Mt)
+  | FB_vvvo f => O_vvv (f T Mt) | FB_dddo f => O_ddd (f T Mt)
   end.
 
 Definition fb_goal (m : rmeth) (d : fb_def) : Prop :=
